@@ -1104,7 +1104,7 @@ sp:
 		break;
 	case 'm':
 	case 'M':
-		if (*sp == 'o') {
+		if (*sp == 'o' || *sp == 'O') {
 			/* that makes it a month */
 			res.d.durtyp = DT_DURMO;
 			sp++;
